@@ -188,6 +188,46 @@ fn listing(secs: &Secs, e: RunTimeEndian) -> Result<(String, String), String> {
     Ok((rows_s, decl_s))
 }
 
+/// input features that decide which recorded finding a failure belongs to (read with gimli::read):
+/// (a DW_LNS_fixed_advance_pc operand is not a multiple of min_inst_len,
+///  two file entries — header or DW_LNE_define_file — have the same directory text and name)
+fn input_features(secs: &Secs, e: RunTimeEndian) -> (bool, bool) {
+    let dwarf = load(secs, e);
+    let mut units = dwarf.units();
+    let Ok(Some(header)) = units.next() else { return (false, false) };
+    let Ok(unit) = dwarf.unit(header) else { return (false, false) };
+    let Some(program) = unit.line_program.clone() else { return (false, false) };
+    let h = program.header();
+    let minlen = h.minimum_instruction_length() as u64;
+    let mut unaligned = false;
+    let mut keys: Vec<(Option<Vec<u8>>, Option<Vec<u8>>)> = Vec::new();
+    let mut key = |f: &read::FileEntry<R>| {
+        let d = h.directory(f.directory_index()).and_then(|d| resolve(&dwarf, &unit, d));
+        let n = resolve(&dwarf, &unit, f.path_name());
+        (d, n)
+    };
+    for f in h.file_names() {
+        keys.push(key(f));
+    }
+    let mut it = h.instructions();
+    while let Ok(Some(i)) = it.next_instruction(h) {
+        match i {
+            read::LineInstruction::FixedAddPc(n) if minlen > 1 && n as u64 % minlen != 0 => unaligned = true,
+            read::LineInstruction::DefineFile(f) => keys.push(key(&f)),
+            _ => {}
+        }
+    }
+    let mut dup = false;
+    for i in 0..keys.len() {
+        for j in 0..i {
+            if keys[i] == keys[j] {
+                dup = true;
+            }
+        }
+    }
+    (unaligned, dup)
+}
+
 fn cerr_name(e: &write::ConvertError) -> String {
     match e {
         write::ConvertError::Read(r) => format!("Read:{}", rerr(r)),
@@ -258,7 +298,18 @@ fn op_line(a: &[&str]) -> Option<String> {
         Ok(out)
     }));
     let out = match res {
-        Err(p) => return Some(format!("panic {} #oracle:convert-panics on an input the reader accepts", panic_msg(p))),
+        Err(p) => {
+            let m = panic_msg(p);
+            let (unaligned, _) = input_features(&secs, e);
+            let class = if m.contains("left == right") && unaligned {
+                "panic-unaligned"
+            } else if m.contains("!val.is_empty()") {
+                "panic-empty-name"
+            } else {
+                "convert-panics"
+            };
+            return Some(format!("panic {m} #oracle:{class} on an input the reader accepts"));
+        }
         Ok(Err(name)) => return Some(format!("ok failed:{name}")),
         Ok(Ok(o)) => o,
     };
@@ -293,12 +344,14 @@ fn op_line(a: &[&str]) -> Option<String> {
             };
             let (pi, po) = (parse(&lin.0), parse(&lout.0));
             let regs = |v: &Vec<(String, String, String)>| v.iter().map(|x| x.0.clone()).collect::<Vec<_>>();
+            let (unaligned, dup) = input_features(&secs, e);
+            let fd = if dup { "file-differs-duplicate" } else { "file-differs" };
             if regs(&pi) != regs(&po) {
-                r.push_str(" #oracle:rows-differ the converted program reads back with other rows");
+                r.push_str(&format!(" #oracle:{} the converted program reads back with other rows", if unaligned { "rows-differ-unaligned" } else { "rows-differ" }));
             } else if pi.iter().zip(po.iter()).any(|(x, y)| x.2 != y.2) {
-                r.push_str(" #oracle:file-differs a row resolves to another file entry");
+                r.push_str(&format!(" #oracle:{fd} a row resolves to another file entry"));
             } else if lin.1 != lout.1 {
-                r.push_str(" #oracle:file-differs a DW_AT_decl_file resolves to another file entry");
+                r.push_str(&format!(" #oracle:{fd} a DW_AT_decl_file resolves to another file entry"));
             } else if pi.iter().zip(po.iter()).any(|(x, y)| x.1 != y.1) {
                 r.push_str(" #oracle:end-op-index the end of a sequence reads back with another op_index");
             }
